@@ -37,7 +37,7 @@ CFG = {
     "rule": "cases: (set) each of the 7 collection types driven by every order of 1..3 (thorough: 1..5) distinct elements followed by a full round of repeats, "
             "plus random histories of add/contains over a pool with near-duplicates (elements differing in one field), started from new / from_bytes of a frame "
             "with 0-3 tags (258, wrong tag), definite (exact, too small, too large, non-minimal head) or indefinite length, repeated and non-canonically encoded "
-            "elements, undecodable elements, a null, with/without break / from_json with repeats / Ed25519KeyHashes::from(&NativeScripts); (ws) sequences of the "
+            "elements (a set tag 258 dropped, an array/map made indefinite or a head widened anywhere inside the element, nested sets of composite elements included: pool registrations with owners, committee updates with members_to_remove), the same re-spelled elements handed to add/contains (decoded vs API-built provenance), undecodable elements, a null, with/without break / from_json with repeats / Ed25519KeyHashes::from(&NativeScripts); (ws) sequences of the "
             "typed setters with repeated native scripts, plutus scripts of 3 languages, datums with and without preserved (canonical and non-canonical) bytes, "
             "lists built by add or decoded definite/indefinite; (ma) MultiAsset via set_asset/insert, from_bytes of maps in arbitrary key order with repeated keys, "
             "from_json, names of length 0..32 around the head boundary 23/24, all orders of 3 (4) triples; (mint) MintBuilder add/set histories incl. amounts that "
